@@ -164,6 +164,13 @@ func genSync(g *Gen, arr string, opts []string, to TreeOpts, obstacles bool) Syn
 		}
 	}
 	sc.Dst = g.PriorDest(ls, obstacles, g.R.Intn(3))
+	if arr == "A2" && g.R.Intn(3) == 0 {
+		// upload into a sub-directory of the module (exists or not)
+		sc.DestSub = []string{"sub", "sub/", "a/b/", "new dir"}[g.R.Intn(4)]
+	}
+	if (arr == "A1" || arr == "A2") && g.R.Intn(3) == 0 {
+		sc.ViaServe = true // through the daemon's accept loop on the simulated listener
+	}
 	minCap := 0
 	if arr == "A1" || arr == "A2" {
 		minCap = 12
@@ -264,6 +271,9 @@ func (c01) Run(t *testing.T, scenario any, job *Job, res *Result) {
 		if !sessionSucceeded(res, s, prefix) {
 			if res.Violation.Kind == "client-error" || res.Violation.Kind == "server-error" {
 				res.Violation.Signature += inputTags(sc.Sync.Arr, "", sc.Sync.Sources)
+			}
+			if k := res.Violation.Kind; k == "client-error" || k == "server-error" || k == "deadlock" {
+				res.Violation.Signature += longNameTag(&sc.Sync.Src)
 			}
 			setTape(tr, s)
 			return
@@ -382,6 +392,19 @@ func nonUTF8Tag(srcPath string, args []SrcArg) string {
 
 // inputTags classifies a violation by recorded input features (known findings
 // are matched on these tags, so any other failing input stays a new violation).
+// longNameTag: a recorded finding concerns names longer than ~235 bytes (the
+// temporary file name exceeds NAME_MAX); whatever follows from that failure
+// (error, or a hang on the error path under small buffers) is classified by
+// this input feature.
+func longNameTag(t *fstree.Tree) string {
+	for _, e := range t.Entries {
+		if len(filepath.Base(string(e.Path))) > 235 {
+			return ":name-over-235-bytes"
+		}
+	}
+	return ""
+}
+
 func inputTags(arr, srcPath string, args []SrcArg) string {
 	tags := ""
 	if arr == "A1" {
